@@ -184,7 +184,7 @@ func guardExits(h *ssa.Function, cl *ssa.Call, g ir.Guard, depth int) (bad []hel
 	if len(pass) == 0 && len(inner) == 0 && !returnsGuardValue(h, g) {
 		return nil, 0
 	}
-	r := ir.NewReach(h).CutEdges(pass)
+	r := ir.NewReach(h).CutEdges(pass).CutEdges(factCuts(h))
 	for _, lc := range inner {
 		r.Barrier[lc.call] = true
 	}
@@ -203,7 +203,7 @@ func guardExits(h *ssa.Function, cl *ssa.Call, g ir.Guard, depth int) (bad []hel
 	mark(r)
 	for _, lc := range inner {
 		for _, e := range lc.bad {
-			r2 := ir.NewReach(h).CutEdges(pass).CutEdges(scenarioCuts(h, lc.call, e.known))
+			r2 := ir.NewReach(h).CutEdges(pass).CutEdges(scenarioCuts(h, lc.call, e.known)).CutEdges(factCuts(h))
 			for _, o := range inner {
 				if o.call != lc.call {
 					r2.Barrier[o.call] = true
@@ -253,6 +253,54 @@ func guardExits(h *ssa.Function, cl *ssa.Call, g ir.Guard, depth int) (bad []hel
 					}
 					if len(live) == 1 {
 						cv = live[0]
+					}
+					// `return a || b || c`: every short-circuit edge carries the constant K; without passing
+					// the guard the value returned is K (all live edges constant), or K / the last operand
+					var rest []ssa.Value
+					kAll, kSet, kSame := false, false, true
+					for _, lv := range live {
+						if k, isK := ir.ConstBool(lv); isK {
+							if kSet && k != kAll {
+								kSame = false
+							}
+							kAll, kSet = k, true
+						} else {
+							rest = append(rest, lv)
+						}
+					}
+					if kSet && kSame && len(rest) == 0 && len(live) < len(phi.Edges) {
+						known := classifyExit(h, ret)
+						if kAll {
+							known[i] = kTrue
+						} else {
+							known[i] = kFalse
+						}
+						bad = append(bad, helperExit{ret, known})
+						good++
+						split = true
+						break
+					}
+					if kSet && kSame && len(rest) == 1 {
+						lv, lneg := rest[0], false
+						for {
+							if u, isU := lv.(*ssa.UnOp); isU && u.Op == token.NOT {
+								lv, lneg = u.X, !lneg
+								continue
+							}
+							break
+						}
+						if ok, passTrue := g(ir.Cond{V: lv}); ok && ((!passTrue) != lneg) == kAll {
+							known := classifyExit(h, ret)
+							if kAll {
+								known[i] = kTrue
+							} else {
+								known[i] = kFalse
+							}
+							bad = append(bad, helperExit{ret, known})
+							good++
+							split = true
+							break
+						}
 					}
 				}
 				for {
@@ -376,7 +424,7 @@ func callExits(h *ssa.Function, cl *ssa.Call, pred func(ssa.Instruction) bool, d
 			}
 		}
 	}
-	r := ir.NewReach(h)
+	r := ir.NewReach(h).CutEdges(factCuts(h))
 	for _, d := range direct {
 		r.Barrier[d] = true
 	}
@@ -387,7 +435,7 @@ func callExits(h *ssa.Function, cl *ssa.Call, pred func(ssa.Instruction) bool, d
 	mark(r)
 	for _, lc := range inner {
 		for _, e := range lc.bad {
-			r2 := ir.NewReach(h).CutEdges(scenarioCuts(h, lc.call, e.known))
+			r2 := ir.NewReach(h).CutEdges(scenarioCuts(h, lc.call, e.known)).CutEdges(factCuts(h))
 			for _, d := range direct {
 				r2.Barrier[d] = true
 			}
@@ -524,6 +572,24 @@ func returnsGuardValue(h *ssa.Function, g ir.Guard) bool {
 			if ok2, _ := g(ir.Cond{V: cv}); ok2 {
 				return true
 			}
+			// the last operand of `return a || b || c` (a phi in the return block)
+			if phi, isPhi := cv.(*ssa.Phi); isPhi && phi.Block() == b {
+				for _, e := range phi.Edges {
+					for {
+						if u, isU := e.(*ssa.UnOp); isU && u.Op == token.NOT {
+							e = u.X
+							continue
+						}
+						break
+					}
+					if _, isK := e.(*ssa.Const); isK {
+						continue
+					}
+					if ok2, _ := g(ir.Cond{V: e}); ok2 {
+						return true
+					}
+				}
+			}
 		}
 	}
 	return false
@@ -624,4 +690,17 @@ func nilable(t types.Type) bool {
 		return true
 	}
 	return false
+}
+
+// FactCutsFor, when set, gives the edges of a helper that contradict a configuration fact the current rule
+// assumes (e.g. "the node runs on main net"); helper summaries are computed under the same fact as the
+// function they are lifted into.  Rules set it for the duration of a Dominates / MustPassCall call through
+// Opt.HelperCuts.
+var FactCutsFor func(h *ssa.Function) []ir.Edge
+
+func factCuts(h *ssa.Function) []ir.Edge {
+	if FactCutsFor == nil {
+		return nil
+	}
+	return FactCutsFor(h)
 }
